@@ -52,6 +52,8 @@ pub enum Op {
 pub enum Source {
     Corpus(String),
     Generated(WbSpec),
+    Styled(crate::props::c05::Case),
+    Annot(crate::gen::annot::AnnotWb),
 }
 
 #[derive(Debug, Clone, Serialize, Deserialize)]
@@ -99,6 +101,26 @@ fn generated_case(t: Tier) -> BoxedStrategy<Case> {
     (wb_spec(5, cells, 20), prop::collection::vec(op_strategy(), 0..=10), any::<bool>())
         .prop_map(|(wb, ops, light)| Case {
             source: Source::Generated(wb),
+            ops,
+            light,
+        })
+        .boxed()
+}
+
+fn styled_case(t: Tier) -> BoxedStrategy<Case> {
+    (crate::props::c05::small_case(t), prop::collection::vec(op_strategy(), 0..=8), any::<bool>())
+        .prop_map(|(c, ops, light)| Case {
+            source: Source::Styled(c),
+            ops,
+            light,
+        })
+        .boxed()
+}
+
+fn annot_case(t: Tier) -> BoxedStrategy<Case> {
+    (crate::gen::annot::annot_wb(t, crate::gen::annot::Feat::CLEAN), prop::collection::vec(op_strategy(), 0..=8), any::<bool>())
+        .prop_map(|(wb, ops, light)| Case {
+            source: Source::Annot(wb),
             ops,
             light,
         })
@@ -244,7 +266,7 @@ fn op_name(op: &Op) -> &'static str {
 /// Compare a sheet that was copied raw / re-serialised differently: semantic projection plus
 /// styles of cells that carry a non-default style in `a`.
 fn diff_sheet_loose(a_ws: &umya_spreadsheet::Worksheet, b_ws: &umya_spreadsheet::Worksheet) -> Option<(String, String)> {
-    if let Some((loc, l, r)) = diff_sheets(&sem_sheet(a_ws), &sem_sheet(b_ws)) {
+    if let Some((loc, l, r)) = diff_sheets(&strip_styles(&sem_sheet(a_ws)), &strip_styles(&sem_sheet(b_ws))) {
         return Some((loc, focus_diff(&l, &r)));
     }
     let default_style = format!("{:?}", umya_spreadsheet::Style::default());
@@ -272,14 +294,20 @@ fn check(case: &Case, obs: &mut Obs) -> Verdict {
                 Err(e) => return Verdict::Discard(format!("cannot read {}: {}", name, e)),
             }
         }
-        Source::Generated(spec) => {
-            obs.class("generated");
-            let book = match guard(|| build(spec)) {
+        Source::Generated(_) | Source::Styled(_) | Source::Annot(_) => {
+            let (label, built) = match &case.source {
+                Source::Generated(spec) => ("generated", guard(|| build(spec))),
+                Source::Styled(c) => ("styled", guard(|| crate::props::c05::build_all(c))),
+                Source::Annot(wb) => ("annotated", guard(|| crate::gen::annot::build(wb))),
+                Source::Corpus(_) => unreachable!(),
+            };
+            obs.class(label);
+            let book = match built {
                 Ok(b) => b,
                 Err(p) => return Verdict::fail(format!("build/panic:{}", p.site()), p.short()),
             };
             match g("save-source", || save(&book, false)) {
-                Ok(b) => (b, "generated"),
+                Ok(b) => (b, label),
                 Err(v) => return v,
             }
         }
@@ -422,6 +450,11 @@ fn check(case: &Case, obs: &mut Obs) -> Verdict {
                 now.parts.remove("defined_names");
                 was.parts.remove("defined_names");
             }
+            if src == "corpus" && t.loaded {
+                // re-serialised sheet of a foreign file: see strip_styles
+                now = strip_styles(&now);
+                was = strip_styles(&was);
+            }
             if let Some((loc, a, b)) = diff_sheets(&was, &now) {
                 return Verdict::fail(
                     format!("{}/untouched-{}-sheet-changed/{}", src, state, loc.split('/').next().unwrap_or("")),
@@ -456,6 +489,20 @@ fn subs() -> Vec<Box<dyn DynSub>> {
             cases: (80, 4000),
             check,
             max_shrink_iters: 3000,
+        }),
+        Box::new(Sub {
+            name: "styled",
+            strategy: styled_case,
+            cases: (40, 2000),
+            check,
+            max_shrink_iters: 2000,
+        }),
+        Box::new(Sub {
+            name: "annotated",
+            strategy: annot_case,
+            cases: (40, 2000),
+            check,
+            max_shrink_iters: 1500,
         }),
     ]
 }
